@@ -133,8 +133,23 @@ func (e *Engine) intrinsic(name string, fn *ssa.Function, a []Value) Value {
 		return e.disjoint(a[0], a[1])
 	case "SameObject":
 		return e.ptrEq(e.unwrapIface(a[0]), e.unwrapIface(a[1]))
+	case "Str":
+		// a symbolic string: an order-isomorphic atom (0 is the empty string); only compared, stored, (un)marshalled
+		return e.freshIn(str(a[0]), 1, 1<<40)
+	case "StrOf":
+		return a[0]
+	case "IntOf":
+		if s, ok := a[0].(string); ok {
+			if s != "" {
+				unsupported("IntOf of a concrete non-empty string")
+			}
+			return int64(0)
+		}
+		return a[0]
 	case "JSONDoc":
-		return e.jsonDocIntrinsic(a)
+		return e.jsonDocIntrinsic(a, false)
+	case "JSONDocS":
+		return e.jsonDocIntrinsic(a, true)
 	case "JSONKind":
 		return e.jsonKind(a[0])
 	case "Track":
